@@ -166,7 +166,7 @@ def C02(tier):
     runs.append(c.spec("array-asan", "asan", "drv_array", "c02", count, shards=sz(tier, [0, 1, 2, 3], [0, 1, 2, 3]), params=p))
     runs.append(c.spec("array-dbg", "dbg", "drv_array", "c02", count, shards=[4, 5], params=p))
     runs.append(c.spec("array-clang", "clang", "drv_array", "c02", count, shards=[6, 7], params=p))
-    runs.append(c.spec("array-sse41", "sse41", "drv_array", "c02", count, shards=[8, 9], params=p))
+    runs.append(c.spec("array-sse41", "sse41", "drv_array", "c02", count, shards=[8, 9, 10, 11], params=p))
     c.compare_digests(runs, "encoded bytes of every array (scalar vs SIMD-enabled vs sanitised builds)")
     for name in ARRAY_CODECS:
         c.require("codec." + name, c.stat("codec." + name), 1000)
@@ -188,7 +188,7 @@ def C03(tier):
     count = per_shard(n)
     p = [2000, sz(tier, 3000, 1500), sz(tier, 0, 1)]
     c.spec("bound-asan", "asan", "drv_array", "c03", count, shards=sz(tier, list(range(8)), list(range(8))), params=p)
-    c.spec("bound-rel", "rel", "drv_array", "c03", count, params=p)
+    c.spec("bound-rel", "rel", "drv_array", "c03", count, params=p[:2] + [1])  # incl. the runs of >= 2^24 identical values
     c.spec("bound-dbg", "dbg", "drv_array", "c03", count, shards=[8, 9], params=p)
     other_builds(c, "bound", "drv_array", "c03", count, params=p)
     nf = sz(tier, 300_000, 10_000_000)
@@ -244,7 +244,7 @@ def C16(tier):
     n = sz(tier, 27 * 30_000, 27 * 800_000)
     count = per_shard(n)
     p = [4097, 1000, sz(tier, 0, 1)]
-    c.spec("meta-rel", "rel", "drv_array", "c16", count, params=p)
+    c.spec("meta-rel", "rel", "drv_array", "c16", count, params=p[:2] + [1])  # incl. the runs of >= 2^24 identical values
     c.spec("meta-asan", "asan", "drv_array", "c16", count, shards=[0, 1, 2, 3], params=p)
     c.spec("meta-msan", "msan", "drv_array", "c16", count, shards=[4, 5], params=p)
     other_builds(c, "meta", "drv_array", "c16", count, shards=(6, 7), params=p)
@@ -255,6 +255,7 @@ def C16(tier):
     for k in ("c16_pfor_no_exceptions", "c16_pfor_one_exception", "c16_pfor_many_exceptions"):
         c.require(k, c.stat(k), 100)
     c.require("float_consumed_checks", c.stat("c16_float_consumed_checked"), 10000)
+    c.require("giant_run_cases", c.stat("giant_run_cases"), 4, "(runs of 2^24 and more identical values)")
     c.assumptions = ["in/out metadata structs (FOR encode, PFOR decode) are passed zeroed, as the API requires; output-only structs are poisoned with 0xEE before the call"]
     c.finish(c.stat("cases"), c.extra["per_cfg"].get("distinct_nontrivial@rel", 0),
              "every metadata-reporting codec variant on the array mixture with emphasis on counts whose tagged length changes "
